@@ -175,8 +175,8 @@ Definition doc_parse (s : list chr) : option (list tok * tree) :=
    11 an exception other than ValueError
    13 (Corr.law_codes) the answer for a text changes between calls: asked again, after the compiled graphs were
       used, after the lru caches were dropped
-   14 (Corr.law_codes) the entry points contradict each other: parse rejects what compile_str (hence observe)
-      accepts or conversely, or compile_expr (parse s) is not what compile_str s returns *)
+   14 (Corr.law_codes) the entry points contradict each other: parse rejects what compile_str or HasTraits.observe
+      (alone or inside a list) accepts, or conversely, or compile_expr (parse s) is not what compile_str s returns *)
 Definition law_single (s : list chr) (o : outcome) : list Z :=
   match o with Crashed => [11] | _ =>
   match doc_parse s with
